@@ -46,23 +46,29 @@ pub type Env = Option<Arc<Frame>>;
 #[derive(Debug)]
 pub struct Frame {
     name: String,
-    val: Val,
+    val: StdMutex<Val>,
+    /// assigned with set! at least once: reads and writes of it become scheduling points
+    mutated: AtomicBool,
     next: Env,
 }
 
 fn bind(env: &Env, name: &str, val: Val) -> Env {
-    Some(Arc::new(Frame { name: name.to_string(), val, next: env.clone() }))
+    Some(Arc::new(Frame { name: name.to_string(), val: StdMutex::new(val), mutated: AtomicBool::new(false), next: env.clone() }))
 }
 
-fn lookup(env: &Env, name: &str) -> Option<Val> {
+fn find_frame<'a>(env: &'a Env, name: &str) -> Option<&'a Arc<Frame>> {
     let mut cur = env;
     while let Some(f) = cur {
         if f.name == name {
-            return Some(f.val.clone());
+            return Some(f);
         }
         cur = &f.next;
     }
     None
+}
+
+fn lookup(env: &Env, name: &str) -> Option<Val> {
+    find_frame(env, name).map(|f| f.val.lock().unwrap().clone())
 }
 
 #[derive(Clone, Debug, PartialEq)]
@@ -133,9 +139,12 @@ pub const NO_FILE: usize = usize::MAX;
 pub const MAIN_THREAD: usize = 0;
 
 struct MutexCell {
-    sh: Option<shuttle::sync::Mutex<()>>,
+    /// (locked flag, condition) under the controlled scheduler; None in sequential runs
+    sh: Option<(shuttle::sync::Mutex<bool>, shuttle::sync::Condvar)>,
     /// 0 = free, else thread + 1
     owner: AtomicUsize,
+    recursive: bool,
+    depth: AtomicUsize,
 }
 
 pub struct Knobs {
@@ -163,6 +172,8 @@ pub struct Runtime {
     calls: AtomicU64,
     /// lock attempts that found the mutex held by another thread (a switch happened inside a record)
     pub contended: AtomicU64,
+    /// names that are the target of a set! somewhere in the program: their reads can race
+    assigned: StdMutex<std::collections::BTreeSet<String>>,
 }
 
 pub struct Ctx {
@@ -194,7 +205,9 @@ const PROCEDURES: &[&str] = &[
     "make-mutex", "current-output-port", "open-file", "close-port", "dynamic-wind", "xattr?", "xattr-ref-string",
     "xattr-match?", "call-with-name", "call-with-relative-path", "round-up-power-of-2", "streq?", "streq-ci?", "fnmatch?",
     "fnmatch-ci?", "type->char", "strftime", "localtime", "dirname", "lipe-scan-break", "make-printer", "lipe-scan", "not",
-    "newline", "string-append", "number->string",
+    "newline", "string-append", "number->string", "make-recursive-mutex", "lock-mutex", "unlock-mutex", "list", "cons",
+    "car", "cdr", "null?", "reverse", "append", "length", "for-each", "eq?", "eqv?", "string=?", "string-null?",
+    "string-length", "zero?", "1+", "1-", "force-output", "flush-all-ports", "string?", "apply",
 ];
 
 fn builtin_name(name: &str) -> Option<&'static str> {
@@ -310,6 +323,7 @@ impl Runtime {
             stop: AtomicBool::new(false),
             calls: AtomicU64::new(0),
             contended: AtomicU64::new(0),
+            assigned: StdMutex::new(Default::default()),
         }
     }
 
@@ -373,36 +387,70 @@ impl Runtime {
         Ok(())
     }
 
-    fn with_mutex(&self, mutex: usize, ctx: &mut Ctx, body: impl FnOnce(&mut Ctx) -> R) -> R {
-        let cell = {
-            let ms = self.mutexes.lock().unwrap();
-            match ms.get(mutex) {
-                Some(c) => c.clone(),
-                None => return runtime("with-mutex: no such mutex"),
-            }
-        };
+    fn cell(&self, mutex: usize, what: &str) -> R<Arc<MutexCell>> {
+        let ms = self.mutexes.lock().unwrap();
+        match ms.get(mutex) {
+            Some(c) => Ok(c.clone()),
+            None => runtime(format!("{what}: no such mutex")),
+        }
+    }
+
+    /// lock-mutex: blocks (under the controlled scheduler) until the mutex is free.
+    fn acquire(&self, mutex: usize, ctx: &mut Ctx, what: &str) -> R<()> {
+        let cell = self.cell(mutex, what)?;
         if cell.owner.load(Ordering::SeqCst) == ctx.thread + 1 {
-            return runtime("with-mutex: mutex already locked by the current thread");
+            if cell.recursive {
+                cell.depth.fetch_add(1, Ordering::SeqCst);
+                return Ok(());
+            }
+            return runtime(format!("{what}: mutex already locked by the current thread"));
         }
         if self.concurrent && cell.owner.load(Ordering::SeqCst) != 0 {
             self.contended.fetch_add(1, Ordering::SeqCst);
         }
-        let guard = match &cell.sh {
-            Some(m) => Some(m.lock().unwrap_or_else(|e| e.into_inner())),
+        match &cell.sh {
+            Some((m, cv)) => {
+                let mut g = m.lock().unwrap_or_else(|e| e.into_inner());
+                while *g {
+                    g = cv.wait(g).unwrap_or_else(|e| e.into_inner());
+                }
+                *g = true;
+            }
             None => {
                 if cell.owner.load(Ordering::SeqCst) != 0 {
-                    return runtime("with-mutex: mutex held by another thread in a sequential run");
+                    return runtime(format!("{what}: mutex held by another thread in a sequential run"));
                 }
-                None
             }
-        };
+        }
         cell.owner.store(ctx.thread + 1, Ordering::SeqCst);
+        cell.depth.store(1, Ordering::SeqCst);
         self.ev(Ev::Lock { thread: ctx.thread, mutex });
-        let r = body(ctx);
+        Ok(())
+    }
+
+    fn release(&self, mutex: usize, ctx: &mut Ctx, what: &str) -> R<()> {
+        let cell = self.cell(mutex, what)?;
+        if cell.owner.load(Ordering::SeqCst) != ctx.thread + 1 {
+            return runtime(format!("{what}: mutex not locked by the current thread"));
+        }
+        if cell.depth.fetch_sub(1, Ordering::SeqCst) > 1 {
+            return Ok(());
+        }
         cell.owner.store(0, Ordering::SeqCst);
         self.ev(Ev::Unlock { thread: ctx.thread, mutex });
-        drop(guard);
+        if let Some((m, cv)) = &cell.sh {
+            *m.lock().unwrap_or_else(|e| e.into_inner()) = false;
+            cv.notify_one();
+        }
         self.point();
+        Ok(())
+    }
+
+    fn with_mutex(&self, mutex: usize, ctx: &mut Ctx, body: impl FnOnce(&mut Ctx) -> R) -> R {
+        self.acquire(mutex, ctx, "with-mutex")?;
+        let r = body(ctx);
+        // A2: released on normal and non-local exit
+        self.release(mutex, ctx, "with-mutex")?;
         r
     }
 
@@ -465,8 +513,12 @@ impl Runtime {
             Sexp::Bool(b) => Ok(Val::Bool(*b)),
             Sexp::Int(i) => Ok(Val::Int(*i)),
             Sexp::Sym(s) => {
-                if let Some(v) = lookup(env, s) {
-                    return Ok(v);
+                if let Some(f) = find_frame(env, s) {
+                    if f.mutated.load(Ordering::SeqCst) || (self.concurrent && ctx.thread != MAIN_THREAD && self.assigned.lock().unwrap().contains(s.as_str())) {
+                        // a variable that is assigned somewhere: its reads can race
+                        self.point();
+                    }
+                    return Ok(f.val.lock().unwrap().clone());
                 }
                 match builtin_name(s) {
                     Some(b) => Ok(Val::Builtin(b)),
@@ -522,6 +574,36 @@ impl Runtime {
                                     last = self.eval(form, &inner, ctx)?;
                                 }
                                 return Ok(last);
+                            }
+                            "set!" => {
+                                let (Some(Sexp::Sym(n)), Some(init)) = (items.get(1), items.get(2)) else {
+                                    return unsupported("malformed set!");
+                                };
+                                let v = self.eval(init, env, ctx)?;
+                                let Some(f) = find_frame(env, n) else { return runtime(format!("set!: unbound variable {n}")) };
+                                f.mutated.store(true, Ordering::SeqCst);
+                                self.point();
+                                *f.val.lock().unwrap() = v;
+                                return Ok(Val::Unspec);
+                            }
+                            "cond" => {
+                                for clause in &items[1..] {
+                                    let Sexp::List(c) = clause else { return unsupported("malformed cond clause") };
+                                    let Some(test) = c.first() else { return unsupported("empty cond clause") };
+                                    let hit = if matches!(test, Sexp::Sym(e) if e == "else") {
+                                        Val::Bool(true)
+                                    } else {
+                                        self.eval(test, env, ctx)?
+                                    };
+                                    if truthy(&hit) {
+                                        let mut last = hit;
+                                        for form in &c[1..] {
+                                            last = self.eval(form, env, ctx)?;
+                                        }
+                                        return Ok(last);
+                                    }
+                                }
+                                return Ok(Val::Unspec);
                             }
                             "begin" => {
                                 let mut last = Val::Unspec;
@@ -866,10 +948,12 @@ impl Runtime {
                 }
                 other => runtime(format!("close-port: not a port: {other:?}")),
             },
-            "make-mutex" => {
+            "make-mutex" | "make-recursive-mutex" => {
                 let cell = Arc::new(MutexCell {
-                    sh: if self.concurrent { Some(shuttle::sync::Mutex::new(())) } else { None },
+                    sh: if self.concurrent { Some((shuttle::sync::Mutex::new(false), shuttle::sync::Condvar::new())) } else { None },
                     owner: AtomicUsize::new(0),
+                    recursive: name == "make-recursive-mutex",
+                    depth: AtomicUsize::new(0),
                 });
                 let mut ms = self.mutexes.lock().unwrap();
                 ms.push(cell);
@@ -899,6 +983,89 @@ impl Runtime {
                 let v = r?;
                 out?;
                 Ok(v)
+            }
+            "lock-mutex" | "unlock-mutex" => match args.first() {
+                Some(Val::Mutex(m)) => {
+                    if name == "lock-mutex" {
+                        self.acquire(*m, ctx, name)?;
+                    } else {
+                        self.release(*m, ctx, name)?;
+                    }
+                    Ok(Val::Bool(true))
+                }
+                other => runtime(format!("{name}: not a mutex: {other:?}")),
+            },
+            "list" => Ok(Val::List(Arc::new(args))),
+            "cons" => match (args.first(), args.get(1)) {
+                (Some(a), Some(Val::List(rest))) => {
+                    let mut v = vec![a.clone()];
+                    v.extend(rest.iter().cloned());
+                    Ok(Val::List(Arc::new(v)))
+                }
+                _ => unsupported("cons onto a non-list"),
+            },
+            "car" | "cdr" | "null?" | "reverse" | "length" => match args.first() {
+                Some(Val::List(l)) => match name {
+                    "car" => l.first().cloned().ok_or(EvalErr::Runtime("car of empty list".into())),
+                    "cdr" => {
+                        if l.is_empty() {
+                            runtime("cdr of empty list")
+                        } else {
+                            Ok(Val::List(Arc::new(l[1..].to_vec())))
+                        }
+                    }
+                    "null?" => Ok(Val::Bool(l.is_empty())),
+                    "reverse" => Ok(Val::List(Arc::new(l.iter().rev().cloned().collect()))),
+                    _ => Ok(Val::Int(l.len() as i128)),
+                },
+                Some(_) if name == "null?" => Ok(Val::Bool(false)),
+                other => runtime(format!("{name}: not a list: {other:?}")),
+            },
+            "append" => {
+                let mut out = vec![];
+                for a in &args {
+                    match a {
+                        Val::List(l) => out.extend(l.iter().cloned()),
+                        other => return runtime(format!("append: not a list: {other:?}")),
+                    }
+                }
+                Ok(Val::List(Arc::new(out)))
+            }
+            "for-each" => match (args.first(), args.get(1)) {
+                (Some(f), Some(Val::List(l))) => {
+                    for item in l.iter() {
+                        self.apply(f, vec![item.clone()], ctx)?;
+                    }
+                    Ok(Val::Unspec)
+                }
+                _ => runtime("for-each: expected a procedure and a list"),
+            },
+            "apply" => match (args.first(), args.last()) {
+                (Some(f), Some(Val::List(l))) if args.len() >= 2 => {
+                    let mut a: Vec<Val> = args[1..args.len() - 1].to_vec();
+                    a.extend(l.iter().cloned());
+                    self.apply(f, a, ctx)
+                }
+                _ => runtime("apply: expected a procedure and a list"),
+            },
+            "eq?" | "eqv?" | "string=?" => Ok(Val::Bool(match (args.first(), args.get(1)) {
+                (Some(Val::Str(a)), Some(Val::Str(b))) => a == b,
+                (Some(Val::Int(a)), Some(Val::Int(b))) => a == b,
+                (Some(Val::Bool(a)), Some(Val::Bool(b))) => a == b,
+                (Some(Val::Char(a)), Some(Val::Char(b))) => a == b,
+                (Some(Val::Port(a)), Some(Val::Port(b))) => a == b,
+                (Some(Val::Mutex(a)), Some(Val::Mutex(b))) => a == b,
+                _ => false,
+            })),
+            "string-null?" => Ok(Val::Bool(as_str(args.first().unwrap_or(&Val::Unspec), name)?.is_empty())),
+            "string-length" => Ok(Val::Int(as_str(args.first().unwrap_or(&Val::Unspec), name)?.chars().count() as i128)),
+            "string?" => Ok(Val::Bool(matches!(args.first(), Some(Val::Str(_))))),
+            "zero?" => Ok(Val::Bool(as_int(args.first().unwrap_or(&Val::Unspec), name)? == 0)),
+            "1+" => Ok(Val::Int(as_int(args.first().unwrap_or(&Val::Unspec), name)? + 1)),
+            "1-" => Ok(Val::Int(as_int(args.first().unwrap_or(&Val::Unspec), name)? - 1)),
+            "force-output" | "flush-all-ports" => {
+                self.point();
+                Ok(Val::Unspec)
             }
             "lipe-scan-break" => {
                 self.point();
@@ -959,6 +1126,24 @@ impl Runtime {
 
     /// Evaluate all top-level forms on the main thread.
     pub fn run_program(self: &Arc<Self>, forms: &[Sexp]) -> Result<(), EvalErr> {
+        fn collect(x: &Sexp, out: &mut std::collections::BTreeSet<String>) {
+            if let Sexp::List(items) = x {
+                if let (Some(Sexp::Sym(h)), Some(Sexp::Sym(n))) = (items.first(), items.get(1)) {
+                    if h == "set!" {
+                        out.insert(n.clone());
+                    }
+                }
+                for i in items {
+                    collect(i, out);
+                }
+            }
+        }
+        {
+            let mut a = self.assigned.lock().unwrap();
+            for f in forms {
+                collect(f, &mut a);
+            }
+        }
         let mut ctx = Ctx::new(MAIN_THREAD);
         for f in forms {
             self.eval(f, &None, &mut ctx)?;
